@@ -1,0 +1,32 @@
+//go:build verif
+
+// Contracts for package daedns, read by /verif/govc (comment-only file).
+
+package daedns
+
+// C07 (dae's own lookups are routed like any other question): each question of a dual-stack lookup is routed
+// under ITS OWN query type, and asked at the upstream chosen for it.
+//@ func (*Router).LookupIPAddr
+//@   anchorsonly
+//@   nonilcheck
+//@   dyncalls noeffect
+//@   modifies *
+//@   at call selectUpstream#1 assert a2 == upstreamName && a3 == host && a4 == qtype
+//@   at call lookupTypeDedup#1 assert a2 == upstream && a3 == host && a4 == qtype
+//@   loop 1
+//@     exit $idx == len(qtypes)
+
+// C04 (values of one condition are alternatives): the predicate of a merged sub/node condition holds when ANY
+// of its key groups holds (xor the negation) - no group can undo another group's hit.
+//@ func wrapNotPredicate$1
+//@   anchorsonly
+//@   nonilcheck
+//@   dyncalls noeffect
+//@   modifies *
+//@   ghostfn hitAt(k int) bool
+//@   at call dyn:condition#1 assume-after result == hitAt($idx)
+//@   at return 1 assert not && (result <==> !matched)
+//@   at return 2 assert !not && (result <==> matched)
+//@   loop 1
+//@     invariant matched <==> (exists k int {hitAt(k)} :: 0 <= k && k < $idx && hitAt(k))
+//@     exit matched <==> (exists k int {hitAt(k)} :: 0 <= k && k < len(conditions) && hitAt(k))
